@@ -931,6 +931,42 @@ fn run_case(c: &Case) -> CaseOut {
     }
 }
 
+/// Sanitizer stage (Miri, thorough tier): a handful of tiny histories run in-process (Miri cannot
+/// spawn the child processes `run_cases` uses). Cheap insurance only: the cursor arithmetic of the
+/// reader is safe code; what Miri watches is zlib-rs inflate/crc32 and the block buffer handling
+/// under seek / direct-decode call patterns.
+fn miri_stage(ctx: &Ctx, rep: &mut Report) {
+    let n = ctx.budget("miri_cases", 30, 30);
+    let mut rng = Rng::new(ctx.seed, 0x3141, 0);
+    for i in 0..n {
+        let nblocks = rng.urange(1, 4);
+        let lens: Vec<u32> = (0..nblocks).map(|_| if rng.chance(1, 4) { 0 } else { rng.urange(1, 6) as u32 }).collect();
+        let layout = built(&lens, (i % 3) as u8, (i % 3 != 0) as u8, "random", 4000 + i);
+        let flavor = match i % 10 {
+            3 | 7 => Flavor::Indexed,
+            9 => Flavor::Mt,
+            _ => Flavor::Plain,
+        };
+        let out = run_hist(&layout, flavor, GZI_VARIANTS[(i % 3) as usize], 12, ctx.seed.wrapping_add(i), &None);
+        rep.evaluations += 1;
+        if out.fp != 0 {
+            rep.distinct.insert(out.fp);
+        }
+        for (k, v) in &out.counters {
+            rep.count(k, *v);
+        }
+        for (k, v) in &out.maxima {
+            rep.max(k, *v);
+        }
+        for (sig, desc, _) in out.violations {
+            rep.violation(sig, format!("{desc} [miri stage, history #{i}: {}]", layout.to_json()), None);
+        }
+        rep.inconclusive.extend(out.inconclusive);
+    }
+    let h = rep.counters.get("histories").copied().unwrap_or(0);
+    rep.floor("histories", h, n.min(10));
+}
+
 fn main() {
     // the multithreaded reader inflates on the global rayon pool; cases already run in one child
     // process per core
@@ -952,7 +988,12 @@ fn main() {
     );
     rep.assumptions.push("the reference model is built only from the independent walker (miniz_oxide inflate, own CRC32) and the generator's own payload".into());
     rep.assumptions.push("tolerances: how many bytes read() returns (1..=n) and how much a failing read_exact consumes are not prescribed (the model re-synchronises from the reported position, which must lie in [p, |U|]); seek by uncompressed offset to |U| may fail with InvalidData when the last indexed block holds 65536 bytes (in-block offset 65536 is not expressible); (block, len) is accepted as a name of the boundary after the block if a reader ever reports it".into());
+    rep.assumptions.push("the counter reads_ge_64k_at_exhausted_block(direct-decode path) is inferred, not observed: it counts read(n >= 65536) calls issued while, by the monitor's bookkeeping of loaded blocks, the reader's current block was used up (noodles has no hook on that path); the mutant C02-direct-read-not-consumed confirms that the path is really taken".into());
     rep.assumptions.push("never generated (out of scope by the statement, C15's business): virtual positions that name no byte boundary, uncompressed offsets > |U|".into());
+    if ctx.stage == "miri" {
+        miri_stage(&ctx, &mut rep);
+        rep.finish(&ctx);
+    }
     let cases = gen_cases(&ctx);
     let f = |i: u64| -> CaseOut {
         let c = &cases[i as usize];
